@@ -70,6 +70,24 @@ def check_c14(root, pid, tier, seed, replay):
         txt, nvals = int_cases(seed, 8 if tier == 'quick' else 120)
         lsv.explore(root, pid, res, txt, 'ints_s%d' % seed, stats)
         res.cov['int_values_through_model_and_impl'] = nvals
+        # the same values through an UNOPTIMISED build (overflow checks and debug assertions on): every value of every
+        # type includes the ones on which a debug build would panic where a release build wraps
+        okd, rnd, msgd = build_config(root, 'default-dev')
+        res.oblige('build:default-dev (integer values in an unoptimised build)', okd, msgd if not okd else '')
+        if okd:
+            cfd = os.path.join(root, '.cache', 'tmp', 'c14_dev_%d.cases' % os.getpid())
+            os.makedirs(os.path.dirname(cfd), exist_ok=True)
+            open(cfd, 'w').write(txt)
+            rc, outd = lsv.sh([rnd, cfd], 1800)
+            os.remove(cfd)
+            casesd, _ = lsv.split_cases(txt)
+            _, _, monsd = lsv.parse_trace(outd)
+            for (cid, step, mname, props, detail) in monsd:
+                stats['monitor_failures'] += 1
+                if len(res.violations) < 5:
+                    rp = lsv.write_replay(root, pid, 'dev_%s' % cid, '# unoptimised build (cargo build without --release)\n' + casesd.get(cid, ''))
+                    res.violations.append(('unoptimised build: monitor %s at case %s step %d: %s' % (mname, cid, step, detail[:160]), rp, True, mname))
+            res.cov['int_values_in_unoptimised_build'] = nvals
         # sweeps on the implementation alone (monitor: to_lean_string() == to_string())
         plan = [('i8', -128, 256, 1), ('u8', 0, 256, 1), ('i16', -32768, 65536, 1), ('u16', 0, 65536, 1)]
         if tier == 'thorough':
